@@ -467,8 +467,13 @@ fn network_cut(ds: &PartialDSet, d: usize, edge_mode: bool)
         .into_iter()
         .collect();
 
+    // The marked region may have several boundary curves (pockets that the
+    // cut vertices separate from both source and sink); the cut must follow
+    // one that faces the sink face.
+    let facing_sink = sink_side(ds, &marked, &special);
+
     if let Some(&start) = marked.iter()
-        .find(|&&e| !marked.contains(&ds.op(0, e).unwrap()))
+        .find(|&&e| facing_sink.contains(&ds.op(0, e).unwrap()))
     {
         // verification build: the pick above depends on hash order; let the
         // explorer decide which of the candidates plays "first in hash order"
@@ -485,6 +490,40 @@ fn network_cut(ds: &PartialDSet, d: usize, edge_mode: bool)
     } else {
         None
     }
+}
+
+
+fn sink_side(
+    ds: &PartialDSet,
+    marked: &HashSet<usize>,
+    special: &HashSet<usize>
+)
+    -> HashSet<usize>
+{
+    // unmarked chambers that can be reached from the unmarked part of the
+    // sink face without crossing the marked region; if the sink
+    // face is completely marked, every unmarked chamber counts
+    let mut seen: HashSet<usize> = special.iter().cloned()
+        .filter(|e| !marked.contains(e))
+        .collect();
+
+    if seen.is_empty() {
+        return (1..=ds.size())
+            .filter(|e| !marked.contains(e))
+            .collect();
+    }
+
+    let mut queue: Vec<usize> = seen.iter().cloned().collect();
+    while let Some(e) = queue.pop() {
+        for i in 0..=2 {
+            let f = ds.op(i, e).unwrap();
+            if !marked.contains(&f) && seen.insert(f) {
+                queue.push(f);
+            }
+        }
+    }
+
+    seen
 }
 
 
